@@ -212,6 +212,23 @@ def _setting_cell(kind, param, value):
             f = NaiveForecaster(strategy="last", sp=sp)
             g = NaiveForecaster(strategy="last", sp=cx.n - 2)
             return (lambda: f.fit(cx.y.copy())), (lambda: g.fit(cx.y.copy())), f
+        if kind == "seasonal-period-in-effect":
+            # every forecaster configuration in which the seasonal period is used (not the ones that document it as ignored)
+            from sktime.forecasting.compose import TransformedTargetForecaster
+            from sktime.forecasting.ets import AutoETS
+            from sktime.forecasting.exp_smoothing import ExponentialSmoothing
+            from sktime.forecasting.theta import ThetaForecaster
+            from sktime.transformations.series.detrend import ConditionalDeseasonalizer, Deseasonalizer
+            mk = {"theta": lambda sp: ThetaForecaster(sp=sp), "es-seasonal": lambda sp: ExponentialSmoothing(seasonal="add", sp=sp),
+                  "ets-seasonal": lambda sp: AutoETS(seasonal="add", sp=sp), "naive-last": lambda sp: NaiveForecaster(strategy="last", sp=sp),
+                  "pipeline-deseasonalizer": lambda sp: TransformedTargetForecaster([("d", Deseasonalizer(sp=sp)), ("f", NaiveForecaster())]),
+                  "pipeline-conditional-deseasonalizer": lambda sp: TransformedTargetForecaster([("d", ConditionalDeseasonalizer(sp=sp)), ("f", NaiveForecaster())])}[param]
+            yy = cx.y - float(cx.y.min()) + 10.0        # strictly positive: the multiplicative deseasonaliser inside the theta forecaster needs it
+            def bad():
+                f = mk(value)                 # some of the constructors validate already
+                run.obj = f
+                return f.fit(yy.copy())
+            return bad, (lambda: mk(2).fit(yy.copy())), None
         if kind == "reduce":
             reg = zoo.build_regressor("lin")
             base = {"strategy": "recursive", "window_length": 3, "scitype": "tabular-regressor"}
@@ -410,6 +427,9 @@ for _v in BADINT:
     for _k, _ps in (("sliding", ["window_length", "step_length", "initial_window"]), ("expanding", ["initial_window", "step_length"]), ("single", ["window_length"]), ("cutoff", ["window_length"])):
         for _p in _ps:
             _add("setting:%s:%s:%r" % (_k, _p, _v), _setting_cell(_k, _p, _v))
+for _w in ("theta", "es-seasonal", "ets-seasonal", "naive-last", "pipeline-deseasonalizer", "pipeline-conditional-deseasonalizer"):
+    for _v in BADINT:
+        _add("setting:seasonal-period:%s:%r" % (_w, _v), _setting_cell("seasonal-period-in-effect", _w, _v))
 _add("setting:naive:strategy:unknown", _setting_cell("naive", "strategy", "median"))
 _add("setting:reduce:strategy:unknown", _setting_cell("reduce", "strategy", "iterated"))
 _add("setting:reduce:scitype:unknown", _setting_cell("reduce", "scitype", "tabular"))
@@ -460,6 +480,7 @@ def run_case(case, ctx):
     cx = Cx(case["cseed"])
     if hasattr(fn, "variant"):
         fn.variant = case["rep"]
+        fn.obj = None
     out = fn(cx)
     if out is None:
         ctx.tag("cell-not-applicable")
@@ -476,6 +497,8 @@ def run_case(case, ctx):
                   "malformed input raised %s instead of ValueError / TypeError / NotImplementedError" % type(e).__name__, exception=exc_sig(e))
     else:
         ctx.check("rejected", False, "malformed:%s:accepted" % name, "malformed input was accepted and produced a result", result=repr(res)[:200])
+    if obj is None:
+        obj = getattr(fn, "obj", None)        # estimators that the cell builds inside the offending call
     if obj is not None and hasattr(obj, "is_fitted"):
         ctx.check("no-fitted-state", not obj.is_fitted, "malformed:%s:leaves-fitted-state" % name, "is_fitted is true after a rejected fit")
     else:
